@@ -240,7 +240,7 @@ fn lifted(cases: &[Case]) -> Vec<Case> {
         for (j, d) in cases.iter().enumerate() {
             if j != i && fn_of(&d.label) == fn_of(&c.label) {
                 if let Some((_, _, l)) = &lits[j] {
-                    if l != lit && !others.contains(l) && others.len() < 2 {
+                    if l != lit && !others.contains(l) && others.is_empty() {
                         others.push(l.clone());
                     }
                 }
@@ -262,8 +262,12 @@ fn lifted(cases: &[Case]) -> Vec<Case> {
 pub fn items(include_b: bool) -> Vec<Item> {
     let mut cases = corpus::corpus_a();
     // parameter variants are examples too (their labels are rewritten to A:.. so that they get lifted as well)
+    // the quick tier takes a seeded 40 % of the parameter variants (each costs fresh golden processes)
+    let quick = std::env::var("VERIF_TIER").map(|t| t != "thorough").unwrap_or(true) && !std::env::args().any(|a| a == "thorough");
+    let vseed = std::env::var("VERIF_SEED").ok().and_then(|s| s.trim().parse::<u64>().ok()).unwrap_or(1);
     let variants: Vec<Case> = corpus::corpus_a_param_variants()
         .into_iter()
+        .filter(|c| !quick || crate::prng::mix(vseed, fnv(c.label.as_bytes())) % 10 < 4)
         .map(|mut c| {
             c.label = format!("A:{}", &c.label[2..]);
             c
